@@ -227,6 +227,7 @@ func (g *gen) boolean(sc []scope, depth, sub int) *Expr {
 		return e
 	case k < 83 && sub > 0:
 		e := &Expr{Op: "exists", Q: g.query(sc, nil, sub-1, false)}
+		g.addOuterConjunct(e.Q, sc)
 		if g.r.Chance(2, 5) {
 			return &Expr{Op: "not", A: e, NotSyntax: g.r.Chance(3, 4)}
 		}
@@ -234,6 +235,7 @@ func (g *gen) boolean(sc []scope, depth, sub int) *Expr {
 	case k < 96 && sub > 0:
 		t := g.anyType()
 		e := &Expr{Op: "inq", A: g.scalar(sc, t, depth-1, 0), Q: g.query(sc, []ctype{t}, sub-1, false)}
+		g.addOuterConjunct(e.Q, sc)
 		if g.r.Bool() {
 			return &Expr{Op: "not", A: e, NotSyntax: g.r.Chance(3, 4)}
 		}
@@ -242,6 +244,35 @@ func (g *gen) boolean(sc []scope, depth, sub int) *Expr {
 		return konst(null())
 	}
 	return &Expr{Op: "cmp", O: "=", A: g.scalar(sc, tInt, 0, 0), B: g.scalar(sc, tInt, 0, 0)}
+}
+
+// addOuterConjunct: with probability 1/3 the subquery's WHERE gets a conjunct over an OUTER column only
+// (... AND x0.c1 > 1): for an outer row where it is NULL the subquery is empty, so NOT EXISTS / NOT IN keep the row
+func (g *gen) addOuterConjunct(q *Query, outer []scope) {
+	b := peel(q)
+	if b == nil || (b.K != "select" && b.K != "group") || len(outer) == 0 || !g.r.Chance(1, 3) {
+		return
+	}
+	var cs []int
+	for i, t := range outer[0].types {
+		if (t == tInt || t == tDec) && (outer[0].usable == nil || outer[0].usable[i]) {
+			cs = append(cs, i)
+		}
+	}
+	if len(cs) == 0 {
+		return
+	}
+	c := lib.Pick(g.r, cs)
+	v := g.lit(outer[0].types[c])
+	for v.K == "null" {
+		v = g.lit(outer[0].types[c])
+	}
+	oc := &Expr{Op: "cmp", O: lib.Pick(g.r, []string{">", "<", "=", "<>", ">="}), A: &Expr{Op: "col", D: 1, I: c}, B: konst(v)}
+	if isTrueConst(b.Wh) {
+		b.Wh = oc
+	} else {
+		b.Wh = &Expr{Op: "and", A: b.Wh, B: oc}
+	}
 }
 
 // scalar subquery of one column of the wanted type; mostly cardinality-safe
@@ -494,6 +525,18 @@ func (g *gen) queryT(outer []scope, want []ctype, sub int, top bool) (*Query, []
 		r := g.block(outer, lt, sub, 0)
 		q = &Query{K: "setop", SOp: lib.Pick(g.r, []string{"union", "union", "intersect", "except"}), All: g.r.Bool(), L: l, R: r}
 		ts = lt
+		if outer == nil && g.r.Chance(1, 2) {
+			// left-deep chain: (A EXCEPT B) UNION C, (A EXCEPT B) INTERSECT C, ...; B is often A restricted by one more
+			// conjunct, so that a value occurring k times in A occurs 0..k times in B
+			inner := &Query{K: "setop", SOp: lib.Pick(g.r, []string{"except", "except", "intersect", "union"}), All: g.r.Chance(1, 3), L: l, R: r}
+			if g.r.Bool() && (l.K == "select") {
+				b := *l
+				b.Wh = &Expr{Op: "and", A: l.Wh, B: g.boolean([]scope{{types: g.srcTypes(l.Src)}}, 1, 0)}
+				inner.R = &b
+			}
+			c := g.block(outer, lt, sub, 0)
+			q = &Query{K: "setop", SOp: lib.Pick(g.r, []string{"union", "intersect", "except"}), All: g.r.Chance(1, 4), L: inner, R: c}
+		}
 	} else {
 		q = g.block(outer, want, sub, 0)
 		ts = g.blockTypes(q, outer)
